@@ -127,17 +127,14 @@ def body_tables(rep, case):
     if set(bridge.SWITCHER_DEVICE_TO_UDP_PORT) != set(cats) or set(api.SWITCHER_DEVICE_TO_TCP_PORT) != set(cats):
         raise Violation("C19/port-table-keys", {}, sorted(c.name for c in cats),
                         [sorted(map(str, bridge.SWITCHER_DEVICE_TO_UDP_PORT)), sorted(map(str, api.SWITCHER_DEVICE_TO_TCP_PORT))])
-    # the API classes really connect to those control ports
-    t1 = api.SwitcherType1Api("127.0.0.1", "aabbcc", "00")
-    t2 = api.SwitcherType2Api("127.0.0.1", "aabbcc", "00")
-    rep.tick("tables", key="api-ports", nontrivial=True)
-    if (t1._port, t2._port) != (9957, 10000):
-        raise Violation("C19/api-ports", {}, [9957, 10000], [t1._port, t2._port])
-    if (api.SWITCHER_TCP_PORT_TYPE1, api.SWITCHER_TCP_PORT_TYPE2, bridge.SWITCHER_UDP_PORT_TYPE1,
-            bridge.SWITCHER_UDP_PORT_TYPE2) != (9957, 10000, 20002, 20003):
-        raise Violation("C19/port-constants", {}, [9957, 10000, 20002, 20003],
-                        [api.SWITCHER_TCP_PORT_TYPE1, api.SWITCHER_TCP_PORT_TYPE2,
-                         bridge.SWITCHER_UDP_PORT_TYPE1, bridge.SWITCHER_UDP_PORT_TYPE2])
+    # public port constants, when the modules still export them under these names
+    for mod, name, want in ((api, "SWITCHER_TCP_PORT_TYPE1", 9957), (api, "SWITCHER_TCP_PORT_TYPE2", 10000),
+                            (bridge, "SWITCHER_UDP_PORT_TYPE1", 20002), (bridge, "SWITCHER_UDP_PORT_TYPE2", 20003)):
+        got = getattr(mod, name, None)
+        if got is not None:
+            rep.tick("tables", key=("const", name), nontrivial=True)
+            if got != want:
+                raise Violation(f"C19/port-constant/{name}", {"constant": name}, want, got)
 
 
 def subchecks(tier):
